@@ -112,6 +112,18 @@ def printer : Expect := {
 def printerOpen : List String := []
 def parserOpen : List String := []
 
+/-- What `Parser.Incomplete()` depends on (`openNodes > 0 || len(litBs) > 0`) and when those fields
+    must be idle.  Probed on the real parser after every statement event and at every blocked Read
+    (i.e. after every line fed to InteractiveSeq), with and without KeepComments. -/
+def parserInvariants : List Invariant := [
+  { field := "openNodes",
+    idle := "0 whenever no statement or word is being parsed: at every StmtsSeq yield and at every blocked Read between statements",
+    probedBy := "streams glue/axioms (A0 at statement events, A2 at blocked reads) + search legs inter/incl (Incomplete() after every line vs the sentinel-line oracle)" },
+  { field := "litBs",
+    idle := "empty (len 0) between tokens/statements when no literal is open: at every StmtsSeq yield and at every blocked Read between statements — in particular after a comment, also one ending in backslash-newline, whether or not comments are kept",
+    probedBy := "streams glue/axioms (A0, A2: len(litBs) is part of every event) + search legs inter/incl" }
+]
+
 /-- expected call structure of the statement entry points: (callee, enclosing if-condition, args) -/
 def parseSkeleton : List (String × String × List String) :=
   [("reset", "", []), ("rune", "", []), ("next", "", []), ("stmtList", "", []), ("doHeredocs", "p.err == nil", [])]
